@@ -462,7 +462,11 @@ class World:
             kind = self.case["loaders"].get(name, "dict")
             tm = dict(self.case["templates"])
             tm.update(self.edits.get(name, {}))  # the loader's CURRENT contents
-            env = Environment(loader=CachingDictLoader(tm) if kind == "caching" else DictLoader(tm))
+            if kind == "shared" and self.shared and name == "B" and self.case["loaders"].get("A") == "caching":
+                # one caching loader object serving two environments (A may have filters/tags B lacks)
+                env = Environment(loader=self.env("A").loader)
+            else:
+                env = Environment(loader=CachingDictLoader(tm) if kind in ("caching", "shared") else DictLoader(tm))
             if name == "A":
                 for what in self.regs:
                     apply_reg(env, what, self.undo)
@@ -665,7 +669,7 @@ def history_case(draw: Any, tier: str, disabled: frozenset[str]) -> dict[str, An
     ops = draw(st.lists(_op_strategy(trefs, nsrc, len(data), disabled, sorted(templates)), min_size=3, max_size=hi))
     return {
         "t0": draw(st.sampled_from([1_000_000_000, 1_152_098_955, 1_700_000_000 - 1, 951_782_399, 86399])),
-        "loaders": {"A": draw(st.sampled_from(["dict", "caching"])), "B": draw(st.sampled_from(["dict", "caching"]))},
+        "loaders": {"A": draw(st.sampled_from(["dict", "caching"])), "B": draw(st.sampled_from(["dict", "caching", "shared"]))},
         "templates": templates,
         "sources": sources,
         "data": data,
@@ -794,6 +798,15 @@ class C09(Prop):
                    "h": [["r", tb, 0], ["r", ta, 0], ["reg", "filter-new"], ["reg", "filter-override"],
                          ["reg", "tag-new"], ["reg", "json-default"], ["r", ta, 0], ["r", tb, 0], ["r", td, 0],
                          ["mr", probe, 1], ["new", ta], ["r", ta, 1]]}
+
+        # one caching loader object shared by two environments, only one of them configured
+        for probe in (11, 12):
+            ga, gb = ["A", "g", f"h{probe}"], ["B", "g", f"h{probe}"]
+            for first, second in ((ga, gb), (gb, ga)):
+                yield {"t0": 1_000_000_000, "loaders": {"A": "caching", "B": "shared"}, "templates": templates,
+                       "sources": list(HAND), "data": data,
+                       "h": [["reg", "filter-new"], ["reg", "filter-override"], ["reg", "tag-new"],
+                             ["r", first, 0], ["r", second, 0], ["r", first, 0], ["new", second], ["r", second, 1]]}
 
     # ------------------------------------------------------------------ oracle
 
